@@ -50,16 +50,17 @@ ST_E = st.sampled_from([1, 1, 2, 3])
 
 
 @st.composite
-def world_spec(draw, connected=True, prod=False):
+def world_spec(draw, connected=True, prod=False, chainy=False, nunits=(2, 5), keep=7):
     fams = []
     rat = _rat()
     for dim in DIMS:
-        n = draw(_int(2, 5))
+        n = draw(_int(*nunits))
         sizes = [draw(rat) for _ in range(n)]
         edges = []
         for i in range(1, n):
-            if connected or draw(_int(0, 9)) < 7:
-                edges.append([i, draw(_int(0, i - 1)), draw(ST_PFX), draw(ST_BOOL)])
+            if connected or draw(_int(0, 9)) < keep:
+                parent = i - 1 if (chainy and draw(ST_BOOL)) else draw(_int(0, i - 1))
+                edges.append([i, parent, draw(ST_PFX), draw(ST_BOOL)])
         for _ in range(draw(_int(0, 3))):
             i = draw(_int(0, n - 1))
             j = draw(_int(0, n - 1))
